@@ -1190,6 +1190,9 @@ func (r *syRig) runSchedule(choose func(step int, en []syAct) int, maxSteps int)
 		if i == -8 { // the transport of the doomed connection fails, on both sides
 			en = []syAct{{'A', 0}}
 			i = 0
+		} else if i == -9 || i == -10 { // short advances of the clock: 100 ms, 300 ms
+			en = []syAct{{'T', map[int]int64{-9: 100, -10: 300}[i]}}
+			i = 0
 		} else if i <= -5 { // the virtual clock advances: -5 six seconds, -6 one minute, -7 one hour
 			en = []syAct{{'T', map[int]int64{-5: 6000, -6: 60000, -7: 3600000}[i]}}
 			i = 0
